@@ -18,6 +18,10 @@ sync constant (ETSI table 9.2 transcribed here).
 from mc import env
 from mc import par, bursts as B
 from mc.report import Report, Acc, exc_sig
+from mc.hist import observe
+import contextlib
+import io
+_DEVNULL = io.StringIO()
 from mc.oracle import gf2
 
 from bitarray import bitarray
@@ -110,6 +114,15 @@ def data_burst_case(acc, label, kind, dtname, clsname, vals, cc, syncname, check
     if again != raw:
         acc.violation(f"reassembled_bytes_differ:{kind.family}", {**case, "first": raw.hex(), "second": again.hex()},
                       "serialising the parsed burst does not give the identical 33 bytes")
+    else:
+        # looking at the parsed burst (repr, str, ==, len, hash) between two serialisations must not change it
+        try:
+            with contextlib.redirect_stdout(_DEVNULL):
+                observe(parsed, light=True)
+            if parsed.as_bytes() != raw:
+                acc.violation(f"reassembled_bytes_differ_after_the_burst_was_looked_at:{kind.family}", case)
+        except Exception as e:  # noqa: BLE001
+            acc.violation(f"exception_after_looking_at_burst:{kind.family}:" + exc_sig(e), case, repr(e))
     if parsed.data_type != dt:
         acc.violation("data_type_differs", {**case, "got": parsed.data_type.name})
     try:
